@@ -376,7 +376,7 @@ type stats struct {
 	distinct   map[uint64]struct{}
 	samples    []json.RawMessage
 	first      json.RawMessage // fallback sample when no non-trivial case was small enough
-	seen       int // nontrivial seen, for reservoir
+	seen       int             // nontrivial seen, for reservoir
 }
 
 var (
